@@ -590,7 +590,8 @@ def run(ctx):
             if r['sample']:
                 ctx.sample(r['sample'])
             for dr in r['drift']:
-                ctx.note_drift(dr)
+                if dr not in ctx.drift:
+                    ctx.note_drift(dr)
             for b in r['bad']:
                 if b is not None:
                     report(ctx, b)
